@@ -31,6 +31,7 @@
 #include <unistd.h>
 
 #include <atomic>
+#include <csignal>
 #include <chrono>
 #include <cstdio>
 #include <cstdlib>
@@ -176,7 +177,15 @@ void role_control_client(std::uint16_t port, unsigned seed) {
                 r = client.send("FETCH", {{"MANIFEST", uri}, {"STREAM", "client"}});
             }
         }
-        if (r && r->success) g_ctl_ok.fetch_add(1); else g_ctl_fail.fetch_add(1);
+        if (r && r->success) {
+            g_ctl_ok.fetch_add(1);
+        } else {
+            g_ctl_fail.fetch_add(1);
+            if (std::getenv("RACE_H_DEBUG")) {
+                std::printf("# control failure pick=%u code=%s\n", static_cast<unsigned>(pick),
+                            r ? (r->fields.count("CODE") ? r->fields.at("CODE").c_str() : "?") : "no-response");
+            }
+        }
         ++n;
         std::this_thread::sleep_for(std::chrono::milliseconds(2 + rng() % 8));
     }
@@ -228,6 +237,7 @@ int main(int argc, char** argv) {
     const double seconds = argc > 1 ? std::atof(argv[1]) : 8.0;
     const int peers = argc > 2 ? std::atoi(argv[2]) : 3;
     const unsigned seed = argc > 3 ? static_cast<unsigned>(std::atoi(argv[3])) : 1u;
+    std::signal(SIGPIPE, SIG_IGN);           // peers drop connections all the time (eph serve ignores it too late to matter)
     std::cerr.setstate(std::ios::failbit);   // the SessionManager's debug chatter is not needed
 
     const auto a_id = make_peer_id(0x01);
@@ -247,7 +257,9 @@ int main(int argc, char** argv) {
     const auto control_port = free_port();
     a_cfg.control_port = control_port;
 
-    Daemon a(a_id, a_cfg);
+    // the nodes are deliberately never destroyed: the detached session threads are not joined by
+    // anything, and a destructor racing with them at exit is not one of the roles under study
+    Daemon& a = *new Daemon(a_id, a_cfg);
     std::atomic<int> ready{0};
     std::thread main_thread(role_main_thread, &a, control_port, &ready);
     while (!ready.load()) std::this_thread::sleep_for(5ms);
@@ -257,7 +269,7 @@ int main(int argc, char** argv) {
         a_port = a.node.transport_port();
     }
 
-    std::vector<std::unique_ptr<Daemon>> peer_nodes;
+    std::vector<Daemon*> peer_nodes;
     for (int i = 0; i < peers; ++i) {
         auto cfg = peer_cfgs[static_cast<std::size_t>(i)];
         eph::Config::BootstrapNode b{};
@@ -266,14 +278,14 @@ int main(int argc, char** argv) {
         b.port = a_port;
         b.public_identity = a_public;
         cfg.bootstrap_nodes.push_back(b);
-        peer_nodes.push_back(std::make_unique<Daemon>(peer_ids[static_cast<std::size_t>(i)], cfg));
+        peer_nodes.push_back(new Daemon(peer_ids[static_cast<std::size_t>(i)], cfg));
     }
 
     std::vector<std::thread> threads;
     threads.emplace_back(role_control_client, control_port, seed * 11u + 1u);
     threads.emplace_back(role_control_client, control_port, seed * 11u + 2u);
     for (int i = 0; i < peers; ++i) {
-        threads.emplace_back(role_peer_driver, peer_nodes[static_cast<std::size_t>(i)].get(), a_id, a_port,
+        threads.emplace_back(role_peer_driver, peer_nodes[static_cast<std::size_t>(i)], a_id, a_port,
                              seed * 13u + static_cast<unsigned>(i));
     }
 
